@@ -1031,7 +1031,12 @@ def model_mem_swap(ex, st, callee, args, ty):
     return m_ret(st, Tup([]))
 
 
+def model_pure(ex, st, callee, args, ty):
+    return m_ret(st, fresh_of_type(ty, st.sym, "p"))
+
+
 STD_MODELS = [
+    (r"^Arguments::<'_>::(from_str|new_const|new_v1|new)", model_pure),
     (r"^core::mem::take::<", model_mem_take),
     (r"^core::mem::swap::<", model_mem_swap),
     (r"slice::<impl \[.*\]>::as_(mut_)?ptr$", model_as_ptr),
